@@ -70,7 +70,7 @@ def programs():
                         "guard-const-left-nogroup-%s" % stag,
                         [["val", 1]],
                     )
-                if op in ("<", ">", "="):
+                if op == "=" or (op in ("<", ">") and not sign):
                     # the bound comes from a literal that also carries the group variable
                     grouped(
                         ["ok(P,B) :- limit(P,B), %sB %s %s." % (sign, op, agg)],
@@ -89,7 +89,7 @@ def programs():
                 "guard-both-var-%s" % stag,
                 [["lim", 1]],
             )
-        for op in ["<", ">", "!="]:  # clingo's parser turns a lone right guard into a left guard
+        for op in ["<", ">="]:  # clingo's parser turns a lone right guard into a left guard
             grouped(["ok(P) :- person(P), %s %s 2." % (agg, op)], "guard-const-right-pos")
             grouped(
                 ["ok(P,B) :- person(P), lim(B), %s %s B." % (agg, op)],
@@ -232,6 +232,10 @@ def programs():
             ["best(P,X,C) :- person(P), X = %s, C = #count{W : sel(P,W)}." % agg],
             "group-other-aggregate-count",
         )
+        grouped(
+            ["best(P,X,C) :- person(P), X = %s, C = #count{W : skill(P,W)}." % agg],
+            "group-other-aggregate-static",
+        )
         other = "min" if func == "max" else "max"
         grouped(
             ["both(P,X,Y) :- person(P), X = %s, Y = #%s{W : sel(P,W)}." % (agg, other)],
@@ -310,7 +314,10 @@ def programs():
             grouped([producer(func)] + cons, tag, xin)
         # the natural shape (no exclusion of #inf/#sup): clingo warns "tuple ignored" on the source
         nat = "best(P,X) :- person(P), X = #%s{V : sel(P,V)}." % func
-        grouped([nat, "total(S) :- S = #sum{V,P : best(P,V)}."], "use-natural-sum")
+        if func == "max":
+            grouped([nat, "total(S) :- S = #sum{V,P : best(P,V)}."], "use-natural-discarded")
+        else:
+            grouped([nat, "#minimize{V@1,P : best(P,V)}."], "use-natural-discarded")
         # same without the exclusion, made checkable by a selected fact: the extreme value always exists
         fact = ["sel(1,2).", "skill(1,2)."]
         natc = "best(X) :- X = #%s{V : sel(1,V)}." % func
@@ -347,7 +354,6 @@ def programs():
         grouped([producer(func, "best(P+1,X)"), sum_c], "store-head-arithmetic")
         grouped([producer(func, "{ best(P,X) }"), min_c], "store-head-choice")
         grouped([producer(func, "best(X,P)"), "total(S) :- S = #sum{V,P : best(V,P)}."], "store-head-swapped")
-        grouped([producer(func, "best(X,P)"), "#minimize{V@1,P : best(V,P)}."], "store-head-swapped")
         grouped([producer(func, "best(X)"), "total(S) :- S = #sum{V : best(V)}."], "store-head-without-group")
         grouped([producer(func, "best(X)"), "#minimize{V@1 : best(V)}."], "store-head-without-group")
         grouped([producer(func, "best(P,k,X)"), "total(S) :- S = #sum{V,P : best(P,k,V)}."], "store-head-constant")
@@ -362,10 +368,10 @@ def programs():
             grouped([producer(func, mid="allowed(P), "), cons], "store-producer-extra-group-literal", [["allowed", 1]])
             if func == "max":
                 grouped(["best(P,X) :- person(P), X = %s, X > 2." % agg, cons], "store-producer-bound-on-result")
-grouped(["best(P,X) :- person(P), X = %s > 2, X != #inf." % agg, cons], "store-producer-second-guard")
+                grouped(["best(P,X) :- person(P), X = %s > 2, X != #inf." % agg, cons], "store-producer-second-guard")
             else:
                 grouped(["best(P,X) :- person(P), X = %s, X < 3." % agg, cons], "store-producer-bound-on-result")
-grouped(["best(P,X) :- person(P), X = %s < 3, X != #sup." % agg, cons], "store-producer-second-guard")
+                grouped(["best(P,X) :- person(P), X = %s < 3, X != #sup." % agg, cons], "store-producer-second-guard")
             grouped(
                 ["best(P,X) :- person(P), X = %s, good(X)." % agg, cons],
                 "store-producer-result-filter",
@@ -439,10 +445,6 @@ grouped(["best(P,X) :- person(P), X = %s < 3, X != #sup." % agg, cons], "store-p
             "two-rules-same-aggregate",
         )
         grouped(
-            ["best(P,X) :- person(P), X = %s." % agg, "ok(P) :- person(P), not 2 <= %s." % agg],
-            "two-rules-same-aggregate",
-        )
-        grouped(
             [producer(func), "total(S) :- S = #sum{V,P : best(P,V)}.", "half(S) :- S = #sum{V,P : best(P,V), special(P)}."],
             "one-producer-two-sums",
             [["special", 1]],
@@ -451,7 +453,7 @@ grouped(["best(P,X) :- person(P), X = %s < 3, X != #sup." % agg, cons], "store-p
     # ------------------------------------------------------------------ 7. no domain anchor (known: #inf/#sup lost)
     for func in FUNCS:
         agg = "#%s{V : sel(P,V)}" % func
-add([CHOICE, "person(1).", "best(P,X) :- person(P), X = #%s{V : skill(P,V), sel(P,V)}." % func], "empty-domain-known", IN_G)
+        add([CHOICE, "person(1).", "best(P,X) :- person(P), X = #%s{V : skill(P,V), sel(P,V)}." % func], "empty-domain-known", IN_G)
         add(["{ sel(V) } :- val(V).", "best(X) :- X = #%s{V : sel(V)}." % func], "empty-domain-known", [["val", 1]])
         add([CHOICE, "person(1).", "ok(P) :- person(P), 2 != %s." % agg], "empty-domain-known", IN_G)
         add([CHOICE, "person(1).", "ok(P) :- person(P), 2 > %s." % agg], "empty-domain-known", IN_G)
